@@ -121,6 +121,12 @@ pub fn run_ops(ops: &[Op]) -> Result<(), (usize, String)> {
                 if s.pts.is_empty() && !(c.path().is_empty() && c.lengths() == [0.0]) {
                     return Err((i, "curve of an empty list must be ([], [0.0])".into()));
                 }
+                // the borrowed view of an owned curve is the same curve
+                let b = c.as_borrowed_curve();
+                check("Curve::as_borrowed_curve", b.path(), b.lengths(), s)?;
+                if b.dist().to_bits() != c.dist().to_bits() {
+                    return Err((i, "as_borrowed_curve().dist() differs from dist()".into()));
+                }
             }
             Op::Borrowed(s) => {
                 let c = BorrowedCurve::new(s.mode, &s.pts, s.len, &mut bufs);
@@ -132,12 +138,25 @@ pub fn run_ops(ops: &[Op]) -> Result<(), (usize, String)> {
                 check("BorrowedCurve::to_owned_curve", o.path(), o.lengths(), s)?;
             }
             Op::NewPath(s) => {
-                path = SliderPath::new(s.mode, s.pts.clone(), s.len);
+                // assignment for odd op indices, `clone_from` (which may reuse the destination, cached curve included) for even ones
+                let fresh = SliderPath::new(s.mode, s.pts.clone(), s.len);
+                if i % 2 == 1 {
+                    path = fresh;
+                } else {
+                    path.clone_from(&fresh);
+                }
                 cur = s.clone();
             }
             Op::PathCurve => {
+                // a clone (taken before the access, so with whatever cache state the path has) behaves like the original
+                let mut cl = path.clone();
                 let c = path.curve();
                 check("SliderPath::curve", c.path(), c.lengths(), &cur)?;
+                let c2 = cl.curve_with_bufs(&mut bufs);
+                check("curve_with_bufs of a clone of the path", c2.path(), c2.lengths(), &cur)?;
+                if cl != path {
+                    return Err((i, "a clone of the path compares unequal to it".into()));
+                }
             }
             Op::PathCurveWithBufs => {
                 let c = path.curve_with_bufs(&mut bufs);
